@@ -12,6 +12,7 @@
 
 namespace sim {
 thread_local Stats g_stats;
+thread_local Sketches g_sketches;
 thread_local Ledger g_ledger;
 
 namespace hist {
@@ -104,7 +105,17 @@ static std::string jsonEscape(const std::string& s) {
   return o;
 }
 
+static void printSketches() {
+  for (auto& e : g_sketches.m) {
+    printf("HLL %s ", e.first.c_str());
+    for (int i = 0; i < (1 << Hll::P); i++)
+      putchar('A' + (e.second.reg[i] > 57 ? 57 : e.second.reg[i]));
+    printf("\n");
+  }
+}
+
 static void printStats() {
+  printSketches();
   printf("STATS {");
   bool first = true;
   for (auto& e : g_stats.c) {
